@@ -90,6 +90,8 @@ func (p *Program) Harnesses(prefix string) []*Harness {
 	return hs
 }
 
+func (w *Worker) BytesSent() int64 { return w.Sol.BytesSent }
+
 func (w *Worker) SolverStats() (sat, unsat, unknown, errors int, secs float64, lastErr string) {
 	s := w.Sol
 	return s.NSat, s.NUnsat, s.NUnknown, s.NErrors, s.SolverTime.Seconds(), s.LastError
